@@ -228,6 +228,17 @@ def check_introductions(ctx, rep, f):
                 else:
                     rep.violates(RULE + '.site', g, st, 'the name {} is drawn from a generator in a loop, but at this point it is not known to be outside {}'.format(name_expr.id, sorted(missing0 or need0)))
                 continue
+        if prov is None and isinstance(name_expr, ast.Name):
+            # the introduced name is bound on several paths: each binding must be a fresh name
+            defs = single_def(g, name_expr.id)
+            if len(defs) >= 2:
+                provs = [(d, _provenance(ctx, g, d)) for d in defs]
+                if any(p is not None for _, p in provs) and any(p is None for _, p in provs):
+                    bad_def = [d for d, p in provs if p is None][0]
+                    n += 1
+                    rep.violates(RULE + '.site', g, st, 'on some path the name that joins {} is `{}`, not a name drawn from the provider: the "new" state can be a state of an operand (the introduced state must be distinct from every operand state)'.format(
+                        u(target_set), u(bad_def)))
+                    continue
         if prov is None:
             continue
         n += 1
